@@ -128,6 +128,14 @@ pub(crate) fn any_file_state(max: u32, has_entry: bool, is_dir: bool) -> FileSta
     FileState { first, current, offset, data, pos: kani::any(), dirty: kani::any() }
 }
 
+/// accessors for harness modules of other source files
+pub(crate) fn file_cursor<IO: ReadWriteSeek, TP, OCC>(f: &File<IO, TP, OCC>) -> (Option<u32>, Option<u32>, u32) {
+    (f.first_cluster, f.current_cluster, f.offset)
+}
+pub(crate) fn file_entry<'b, IO: ReadWriteSeek, TP, OCC>(f: &'b File<IO, TP, OCC>) -> Option<&'b DirEntryEditor> {
+    f.entry.as_ref()
+}
+
 fn mk_file<'a>(fs: &'a Fs, st: &FileState) -> File<'a, NdDev, SymTime, LossyOemCpConverter> {
     File {
         first_cluster: st.first,
